@@ -50,7 +50,7 @@ class ReleaseRequest(AbstractAcseApdu):
         if not rlrq_tag == cls.TAG:
             raise ValueError("Bytes are not an RLRQ APDU. TAg is not int(98)")
 
-        rlrq_length = rlrq_data.pop(0)
+        rlrq_length = BER.pop_length(rlrq_data)
 
         if not len(rlrq_data) == rlrq_length:
             raise ValueError(
@@ -71,7 +71,7 @@ class ReleaseRequest(AbstractAcseApdu):
                     f"in RLRQ definition"
                 )
 
-            object_length = rlrq_data.pop(0)
+            object_length = BER.pop_length(rlrq_data)
             object_data = bytes(rlrq_data[:object_length])
             rlrq_data = rlrq_data[object_length:]
 
